@@ -90,18 +90,25 @@ def proof_step(prop: str, tier: str = "quick"):
     if not os.path.exists(src):
         res["log"] = "no property file " + src
         return res
-    text = open(src).read()
-    thms = re.findall(r"^\s*Theorem\s+(\w+)", text, re.M)
+    # P_Cxx.v plus optional continuation files P_Cxxb.v, P_Cxxc.v ...
+    files = [f"P_{prop}.v"] + sorted(f for f in os.listdir(os.path.join(COQ, "Props"))
+                                      if re.fullmatch(rf"P_{prop}[a-z]\.v", f))
+    thms, out = [], ""
+    for fn in files:
+        text = open(os.path.join(COQ, "Props", fn)).read()
+        thms += re.findall(r"^\s*Theorem\s+(\w+)", text, re.M)
     res["theorems"] = thms
     res["obligations"] = len(thms)
-    try:
-        rc, out, err = run(["coqc", "-Q", ".", "AV", f"Props/P_{prop}.v"], 900, cwd=COQ)
-    except subprocess.TimeoutExpired:
-        res["log"] = "coqc timed out"
-        return res
-    res["log"] = (out + err)[-4000:]
-    if rc != 0:
-        return res
+    for fn in files:
+        try:
+            rc, o, err = run(["coqc", "-Q", ".", "AV", f"Props/{fn}"], 900, cwd=COQ)
+        except subprocess.TimeoutExpired:
+            res["log"] = "coqc timed out on " + fn
+            return res
+        res["log"] = (o + err)[-4000:]
+        if rc != 0:
+            return res
+        out += o
     # one answer per Print Assumptions
     answers = re.split(r"(?=Closed under the global context|Axioms:)", out)
     answers = [a.strip() for a in answers if a.startswith("Closed under") or a.startswith("Axioms:")]
